@@ -21,7 +21,7 @@ KEYWORDS = {'SELECT', 'FROM', 'WHERE', 'ORDER', 'BY', 'ASC', 'DESC', 'LIMIT', 'A
             'IN', 'INSERT', 'INTO', 'VALUES', 'REPLACE', 'IGNORE', 'UPDATE', 'SET', 'DELETE', 'BEGIN', 'IMMEDIATE',
             'COMMIT', 'ROLLBACK', 'PRAGMA', 'VACUUM', 'CREATE', 'TABLE', 'INDEX', 'UNIQUE', 'IF', 'EXISTS', 'ON',
             'DROP', 'TRIGGER', 'AFTER', 'FOR', 'EACH', 'ROW', 'END', 'DEFAULT', 'PRIMARY', 'KEY', 'EXCLUSIVE',
-            'DEFERRED', 'TRANSACTION'}
+            'DEFERRED', 'TRANSACTION', 'BETWEEN'}
 
 
 def tokenize(sql):
@@ -126,6 +126,14 @@ class P:
                 op = {'==': '=', '<>': '!='}.get(op, op)
                 b = self.add()
                 a = ('cmp', op, a, b)
+            elif self.at_kw('BETWEEN') or (self.at_kw('NOT') and self.peek(1) == ('kw', 'BETWEEN')):
+                neg = self.eat_kw('NOT')
+                self.expect_kw('BETWEEN')
+                lo = self.add()
+                self.expect_kw('AND')
+                hi = self.add()
+                e = ('and', ('cmp', '>=', a, lo), ('cmp', '<=', a, hi))
+                a = ('not', e) if neg else e
             elif self.at_kw('IS'):
                 self.next()
                 neg = self.eat_kw('NOT')
